@@ -24,33 +24,46 @@ Definition skipped (ch w : Z) : bool :=
   (value w =? 0) || (if byte1 w <? 32 then negb (d_chan (decode w) =? 1) else negb (ch =? 1)).
 Definition chan_after (ch w : Z) : Z :=
   if value w =? 0 then ch else if byte1 w <? 32 then d_chan (decode w) else ch.
-Lemma with_chan_tc_same c t : with_chan (with_tc c t) (c_chan c) = with_tc c t.
+(* what a skipped word leaves: one more frame, the channel being addressed, and previous_word reset *)
+Definition skip_to (c : ctx) (t : tcv) (ch : Z) : ctx := with_prev (with_chan (with_tc c t) ch) None.
+Lemma skip_to_same c t : with_prev (with_tc c t) None = skip_to c t (c_chan c).
 Proof. destruct c; reflexivity. Qed.
 Lemma step_skipped c w : c_err c = false -> is_dup c w = false -> skipped (c_chan c) w = true ->
-  step c w = with_chan (with_tc c (tc_next (c_tc c))) (chan_after (c_chan c) w).
+  step c w = skip_to c (tc_next (c_tc c)) (chan_after (c_chan c) w).
 Proof.
   intros He Hd Hs. unfold step, is_dup, skipped, chan_after in *. rewrite He.
   destruct (match c_prev c with Some pv => _ | None => false end); [discriminate|].
-  destruct (value w =? 0); [now rewrite with_chan_tc_same|]. cbn [orb] in Hs.
+  destruct (value w =? 0); [apply skip_to_same|]. cbn [orb] in Hs.
   destruct (byte1 w <? 32).
   - rewrite Hs. reflexivity.
-  - change (c_chan (with_tc c (tc_next (c_tc c)))) with (c_chan c). rewrite Hs. now rewrite with_chan_tc_same.
+  - change (c_chan (with_tc c (tc_next (c_tc c)))) with (c_chan c). rewrite Hs. apply skip_to_same.
 Qed.
+(* a skipped word is never taken for the second copy of a doubled code once previous_word has been reset *)
+Lemma is_dup_reset c t ch w : is_dup (skip_to c t ch) w = false.
+Proof. reflexivity. Qed.
 Fixpoint block_ok (ch : Z) (b : list Z) : bool :=
   match b with [] => true | w :: b' => skipped ch w && block_ok (chan_after ch w) b' end.
 Fixpoint chan_end (ch : Z) (b : list Z) : Z := match b with [] => ch | w :: b' => chan_end (chan_after ch w) b' end.
-Lemma with_chan_tc_twice c t1 x t2 y : with_chan (with_tc (with_chan (with_tc c t1) x) t2) y = with_chan (with_tc c t2) y.
+Lemma skip_to_twice c t1 x t2 y : skip_to (skip_to c t1 x) t2 y = skip_to c t2 y.
 Proof. destruct c; reflexivity. Qed.
-(* a block of skipped words changes nothing but the elapsed frames and the channel being addressed *)
-Lemma channel_block b : forall c, c_err c = false -> (forall w, In w b -> is_dup c w = false) -> block_ok (c_chan c) b = true ->
-  fold_left step b c = with_chan (with_tc c (iter_n (length b) tc_next (c_tc c))) (chan_end (c_chan c) b).
+(* a non-empty block of skipped words changes nothing but the elapsed frames and the channel being addressed, and
+   resets previous_word (since the repair of previous-word-survives-padding); only its first word could be taken for
+   the second copy of a doubled code *)
+Lemma channel_block_from b : forall c t ch, c_err c = false -> block_ok ch b = true ->
+  fold_left step b (skip_to c t ch) = skip_to c (iter_n (length b) tc_next t) (chan_end ch b).
 Proof.
-  induction b as [|w b IH]; intros c He Hd Hb; cbn [fold_left length iter_n chan_end].
-  - destruct c; reflexivity.
-  - cbn [block_ok] in Hb. apply andb_true_iff in Hb as [Hs Hb].
-    rewrite (step_skipped c w He (Hd w (or_introl eq_refl)) Hs).
-    rewrite IH; [|exact He|intros x Hx; apply (Hd x); now right|exact Hb].
-    cbn [c_tc c_chan with_chan with_tc]. rewrite iter_shift. cbn [iter_n]. apply with_chan_tc_twice.
+  induction b as [|w b IH]; intros c t ch He Hb; cbn [fold_left length iter_n chan_end]; [reflexivity|].
+  cbn [block_ok] in Hb. apply andb_true_iff in Hb as [Hs Hb].
+  rewrite (step_skipped (skip_to c t ch) w He (is_dup_reset c t ch w) Hs).
+  change (c_chan (skip_to c t ch)) with ch. change (c_tc (skip_to c t ch)) with t. rewrite skip_to_twice.
+  rewrite IH by assumption. rewrite iter_shift. reflexivity.
+Qed.
+Lemma channel_block w b c : c_err c = false -> is_dup c w = false -> block_ok (c_chan c) (w :: b) = true ->
+  fold_left step (w :: b) c = skip_to c (iter_n (length (w :: b)) tc_next (c_tc c)) (chan_end (c_chan c) (w :: b)).
+Proof.
+  intros He Hd Hb. cbn [fold_left]. cbn [block_ok] in Hb. apply andb_true_iff in Hb as [Hs Hb].
+  rewrite (step_skipped c w He Hd Hs). rewrite channel_block_from by assumption.
+  cbn [length chan_end]. rewrite iter_shift. reflexivity.
 Qed.
 (* a control-range word of channel 1 *)
 Definition ch1_code (w : Z) : bool := (byte1 w <? 32) && negb (value w =? 0) && (d_chan (decode w) =? 1).
@@ -64,14 +77,20 @@ Proof.
   change (c_tc (with_chan c x)) with (c_tc c).
   rewrite He, Hd, H1, H2, H3. cbn [negb]. rewrite with_chan_inner. reflexivity.
 Qed.
-(* interleaved words of another channel: the channel-1 code that follows (not itself a repetition of
-   previous_word) is processed exactly as if only the frames had elapsed *)
-Lemma channel_filter b w c : c_err c = false -> (forall x, In x b -> is_dup c x = false) -> block_ok (c_chan c) b = true ->
-  ch1_code w = true -> is_dup c w = false ->
-  fold_left step (b ++ [w]) c = step (with_tc c (iter_n (length b) tc_next (c_tc c))) w.
+(* interleaved words of another channel / null padding: the channel-1 code that follows is processed exactly as if
+   only the frames had elapsed and previous_word had been forgotten - whatever that code is (full statement since the
+   repair: a code repeated after the block is acted upon again) *)
+Lemma channel_filter x b w c : c_err c = false -> is_dup c x = false -> block_ok (c_chan c) (x :: b) = true ->
+  ch1_code w = true ->
+  fold_left step ((x :: b) ++ [w]) c = step (with_prev (with_tc c (iter_n (length (x :: b)) tc_next (c_tc c))) None) w.
 Proof.
-  intros He Hd Hb Hw Hdw. rewrite fold_left_app. cbn [fold_left]. rewrite channel_block by assumption.
-  now apply step_ignores_chan.
+  intros He Hd Hb Hw. rewrite fold_left_app. cbn [fold_left app]. 
+  change (fold_left step b (step c x)) with (fold_left step (x :: b) c). rewrite channel_block by assumption.
+  unfold skip_to.
+  set (c' := with_tc c _).
+  replace (with_prev (with_chan c' (chan_end (c_chan c) (x :: b))) None) with (with_chan (with_prev c' None) (chan_end (c_chan c) (x :: b)))
+    by (destruct c; reflexivity).
+  apply step_ignores_chan; [exact He|reflexivity|exact Hw].
 Qed.
 
 (* ---- doubled control codes ---- *)
